@@ -214,6 +214,11 @@ if not inputMibs:
 if not dstFormat:
     dstFormat = 'pysnmp'
 
+if buildIndexFlag and dstFormat == 'pysnmp':
+    # the pysnmp code generator can not build an index
+    sys.stderr.write('ERROR: --build-index is not supported with --destination-format=pysnmp\r\n%s\r\n' % helpMessage)
+    sys.exit(EX_USAGE)
+
 if dstFormat == 'pysnmp':
     if not mibSearchers:
         mibSearchers = PySnmpCodeGen.defaultMibPackages
